@@ -443,22 +443,25 @@ impl BiscuitBuilder {
     }
 
     fn add_fact(&mut self, fact: &str) -> Result<(), biscuit_auth::error::Token> {
-        let mut inner = self.0.take().unwrap();
-        inner = inner.fact(fact)?;
+        // the builder is consumed by the call: work on a copy so that a refused
+        // item leaves this builder as it was
+        let inner = self.0.clone().unwrap().fact(fact)?;
         self.0 = Some(inner);
         Ok(())
     }
 
     fn add_rule(&mut self, rule: &str) -> Result<(), biscuit_auth::error::Token> {
-        let mut inner = self.0.take().unwrap();
-        inner = inner.rule(rule)?;
+        // the builder is consumed by the call: work on a copy so that a refused
+        // item leaves this builder as it was
+        let inner = self.0.clone().unwrap().rule(rule)?;
         self.0 = Some(inner);
         Ok(())
     }
 
     fn add_check(&mut self, check: &str) -> Result<(), biscuit_auth::error::Token> {
-        let mut inner = self.0.take().unwrap();
-        inner = inner.check(check)?;
+        // the builder is consumed by the call: work on a copy so that a refused
+        // item leaves this builder as it was
+        let inner = self.0.clone().unwrap().check(check)?;
         self.0 = Some(inner);
         Ok(())
     }
@@ -813,22 +816,25 @@ impl BlockBuilder {
     }
 
     fn add_fact(&mut self, fact: &str) -> Result<(), biscuit_auth::error::Token> {
-        let mut inner = self.0.take().unwrap();
-        inner = inner.fact(fact)?;
+        // the builder is consumed by the call: work on a copy so that a refused
+        // item leaves this builder as it was
+        let inner = self.0.clone().unwrap().fact(fact)?;
         self.0 = Some(inner);
         Ok(())
     }
 
     fn add_rule(&mut self, rule: &str) -> Result<(), biscuit_auth::error::Token> {
-        let mut inner = self.0.take().unwrap();
-        inner = inner.rule(rule)?;
+        // the builder is consumed by the call: work on a copy so that a refused
+        // item leaves this builder as it was
+        let inner = self.0.clone().unwrap().rule(rule)?;
         self.0 = Some(inner);
         Ok(())
     }
 
     fn add_check(&mut self, check: &str) -> Result<(), biscuit_auth::error::Token> {
-        let mut inner = self.0.take().unwrap();
-        inner = inner.check(check)?;
+        // the builder is consumed by the call: work on a copy so that a refused
+        // item leaves this builder as it was
+        let inner = self.0.clone().unwrap().check(check)?;
         self.0 = Some(inner);
         Ok(())
     }
@@ -997,29 +1003,33 @@ pub unsafe extern "C" fn block_builder_free(_builder: Option<Box<BlockBuilder>>)
 
 impl AuthorizerBuilder {
     fn add_fact(&mut self, fact: &str) -> Result<(), biscuit_auth::error::Token> {
-        let mut inner = self.0.take().unwrap();
-        inner = inner.fact(fact)?;
+        // the builder is consumed by the call: work on a copy so that a refused
+        // item leaves this builder as it was
+        let inner = self.0.clone().unwrap().fact(fact)?;
         self.0 = Some(inner);
         Ok(())
     }
 
     fn add_rule(&mut self, rule: &str) -> Result<(), biscuit_auth::error::Token> {
-        let mut inner = self.0.take().unwrap();
-        inner = inner.rule(rule)?;
+        // the builder is consumed by the call: work on a copy so that a refused
+        // item leaves this builder as it was
+        let inner = self.0.clone().unwrap().rule(rule)?;
         self.0 = Some(inner);
         Ok(())
     }
 
     fn add_check(&mut self, check: &str) -> Result<(), biscuit_auth::error::Token> {
-        let mut inner = self.0.take().unwrap();
-        inner = inner.check(check)?;
+        // the builder is consumed by the call: work on a copy so that a refused
+        // item leaves this builder as it was
+        let inner = self.0.clone().unwrap().check(check)?;
         self.0 = Some(inner);
         Ok(())
     }
 
     fn add_policy(&mut self, policy: &str) -> Result<(), biscuit_auth::error::Token> {
-        let mut inner = self.0.take().unwrap();
-        inner = inner.policy(policy)?;
+        // the builder is consumed by the call: work on a copy so that a refused
+        // item leaves this builder as it was
+        let inner = self.0.clone().unwrap().policy(policy)?;
         self.0 = Some(inner);
         Ok(())
     }
